@@ -208,7 +208,10 @@ partial def dumpTy (M : Module) (t : Ty) : List String :=
     match fixConstr M r a with
     | some fc => dumpComps M fc.root ++ dumpComps M fc.adds
     | none => ["loop"]
-  | .seqOf _ e => dumpTy M e
+  | .seqOf _ e =>
+    match fixTypeTag M e with
+    | some (e', _) => dumpTy M e'
+    | none => ["loop"]
   | _ => []
 partial def dumpComps (M : Module) : List Comp → List String
   | [] => []
